@@ -824,8 +824,34 @@ def underTimeLimit (effs : List String) : Bool :=
       else st) (false, true)).2
 
 theorem connect_flows_run_under_the_time_limit :
-    Gen.MuxFacts.dialerConnectFlow.all (fun (_, eff) => underTimeLimit eff) = true ∧
+    Gen.MuxFacts.dialerConnectFlow.all (fun (sc, eff) => !cflag sc "ctxHasDeadline" || underTimeLimit eff) = true ∧
     Gen.MuxFacts.transportConnectFlow.all (fun (_, eff) => underTimeLimit eff) = true := by
+  decide
+
+/-- **the time limit decides nothing else** (seed C18-m7 moved the SASL exchange under `if deadline, ok := ctx.Deadline()`:
+with `Timeout == 0`, a zero `Deadline` and a context without deadline the Conn went out unauthenticated).  Model: a run
+does not depend on `Cfg.limit`.  Code: `connect_flows_are_the_model` compares EVERY row of `dialerConnectFlow` — the
+table now has `ctxHasDeadline` as a dimension of its own — with a model row that does not look at that flag, so the
+calls made (`split`, `auth`, `close`) and the value returned are the same with and without a deadline; and rows that
+differ only in that flag differ only by the deadline bookkeeping: -/
+theorem time_limit_decides_nothing (c : Cfg) (b : Bool) (es : List Env) :
+    run { c with limit := b } es = run c es := by
+  have hstep : ∀ (s : State) (e : Env), step { c with limit := b } s e = step c s e := by
+    intro s e; unfold step react; rfl
+  have hrun : ∀ (es : List Env) (s : State), runFrom { c with limit := b } s es = runFrom c s es := by
+    intro es
+    induction es with
+    | nil => intro s; rfl
+    | cons e es ih => intro s; simp only [runFrom, hstep]; split <;> simp [ih]
+  have hstart : start { c with limit := b } = start c := by unfold start; rfl
+  simp [run, hstart, hrun]
+
+theorem dialer_rows_agree_across_the_time_limit :
+    Gen.MuxFacts.dialerConnectFlow.all (fun (sc, eff) =>
+      Gen.MuxFacts.dialerConnectFlow.all (fun (sc', eff') =>
+        !(sc.filter (fun x => !(x == "ctxHasDeadline=true" || x == "ctxHasDeadline=false")) ==
+          sc'.filter (fun x => !(x == "ctxHasDeadline=true" || x == "ctxHasDeadline=false"))) ||
+        noTimeLimit eff == noTimeLimit eff')) = true := by
   decide
 
 /-! ## raw versus framed: the two places that decide it, re-extracted -/
